@@ -55,6 +55,7 @@ def gen_recipe(rng, size="small"):
     n_mod = rng.randint(1, 5 if big else 4)
     unnamed = rng.random() < 0.25
     dup_names = rng.random() < 0.15
+    fan = rng.random() < 0.25        # one wire with a large fan-out (>= 12 pins) in the top definition
     defs = []
 
     def nm(stem):
@@ -112,6 +113,12 @@ def gen_recipe(rng, size="small"):
 
     for _ in range(n_leaf):
         defs.append({"name": nm("leaf"), "ports": mkports(1, 3), "children": [], "cables": []})
+    fan_idx = None
+    if fan:
+        fan_idx = len(defs)
+        defs.append({"name": nm("fan"), "ports": [{"name": nm("P"), "width": 3, "arr": True, "lower": 0},
+                                                   {"name": nm("P"), "width": 3, "arr": True, "lower": 2}],
+                     "children": [], "cables": []})
     for _ in range(n_pass):
         D = {"name": nm("pass"), "ports": mkports(1, 4), "children": [], "cables": []}
         pins = [["p", pi, b] for pi, P in enumerate(D["ports"]) for b in range(P["width"])]
@@ -135,9 +142,28 @@ def gen_recipe(rng, size="small"):
                     for b in range(P["width"]):
                         pins.append(["c", ci, pi, b])
         mkcables(D, pins)
+        if fan and mi == n_mod - 1:
+            k0 = len(D["children"])
+            grp = []
+            for j in range(3):
+                D["children"].append({"name": nm("F"), "ref": fan_idx})
+                grp += [["c", k0 + j, pi, bb] for pi in range(2) for bb in range(3)]
+            rng.shuffle(grp)
+            grp = grp[: rng.randint(12, 18)]
+            D["cables"].append({"name": nm("N"), "arr": False, "lower": 0, "wires": [grp]})
         defs.append(D)
-    return {"defs": defs, "top": len(defs) - 1, "topname": nm("top"), "nlibs": rng.randint(1, 2),
-            "orphans": rng.randint(0, 1)}
+    out = {"defs": defs, "top": len(defs) - 1, "topname": nm("top"), "nlibs": rng.randint(1, 2),
+           "orphans": rng.randint(0, 1)}
+    # how the top instance is installed: property setter, Netlist.set_top_instance(instance), or the
+    # netlist under test is a clone() of the built one
+    out["top_mode"] = rng.choice(["setter", "setter", "set_top_instance", "clone"])
+    # a definition that is instantiated but sits in no library (stand-alone Definition / removed from it)
+    if rng.random() < 0.15 and len(defs) > 1:
+        used = sorted(set(c["ref"] for D in defs for c in D["children"] if c["ref"] is not None))
+        cand = [i for i in used if defs[i]["children"]] or used
+        if cand:
+            out["detached"] = [rng.choice(cand)]
+    return out
 
 
 def recipe_size(r):
@@ -194,7 +220,22 @@ class Built:
         if r.get("topname") is not None:
             top.name = r["topname"]
         top.reference = self.defs[r["top"]]
-        nl.top_instance = top
+        mode = r.get("top_mode", "setter")
+        if mode == "set_top_instance":
+            nl.set_top_instance(top)
+        else:
+            nl.top_instance = top
+        if mode == "clone":
+            # the netlist under test is the clone; handles are re-derived by position
+            nl = nl.clone()
+            self.nl = nl
+            self.libs = list(nl.libraries)
+            n = len(self.libs)
+            self.defs = [self.libs[di % n].definitions[di // n] for di in range(len(r["defs"]))]
+        for di in r.get("detached", []):
+            d = self.defs[di]
+            if d.library is not None:
+                d.library.remove_definition(d)
         self.h_children = [list(d.children) for d in self.defs]
         self.h_ports = [list(d.ports) for d in self.defs]
         self.orphans = []
@@ -523,10 +564,12 @@ def timed(thunk):
         signal.setitimer(signal.ITIMER_VIRTUAL, 0)
 
 
-def impl_query(sdn, f, obj, rec, sel, ids):
+def impl_query(sdn, f, obj, rec, sel, ids, flt=None):
     fn = {"hinst": sdn.get_hinstances, "hport": sdn.get_hports, "hpin": sdn.get_hpins,
           "hcable": sdn.get_hcables, "hwire": sdn.get_hwires}[f]
     kw = {"recursive": rec}
+    if flt is not None:
+        kw["filter"] = flt
     if f in ("hcable", "hwire"):
         kw["selection"] = SELS[sel]
     if _WATCHDOG["timeouts"] >= 3:
@@ -631,8 +674,11 @@ def gen_edits(rng, r, n):
         elif k < 0.58 and D["children"] and di > 0:
             ops.append(["repoint", di, rng.randrange(len(D["children"])),
                         rng.choice([None] + list(range(di)) + list(range(di)))])
-        elif k < 0.62:
+        elif k < 0.57:
             ops.append(["rm_def", di])
+        elif k < 0.62:
+            # replace the top instance after references were taken
+            ops.append(["retop", di, rng.choice(["set_top_instance", "setter"])])
         elif k < 0.80:
             # RENAME an item on the paths of held references / change what a bus index is computed from
             kind = rng.choice(["child", "child", "port", "cable", "top", "lower_port", "lower_cable", "arr_port", "arr_cable"])
@@ -704,6 +750,15 @@ def apply_edit(b, handles, op):
             k.reference = None if op[3] is None else b.defs[op[3]]
         elif op[0] == "rm_def":
             d.library.remove_definition(d)
+        elif op[0] == "retop":
+            import spydrnet as _sdn
+            t = _sdn.Instance()
+            t.name = "T2"
+            t.reference = d
+            if op[2] == "set_top_instance":
+                b.nl.set_top_instance(t)
+            else:
+                b.nl.top_instance = t
         elif op[0] == "rename":
             x = b.nl.top_instance if op[1] == "top" else handles[op[2]][{"child": "children", "port": "ports", "cable": "cables"}[op[1]]][op[3]]
             x.name = op[4]
@@ -845,7 +900,7 @@ def check_c11(res, sess, recipe, rng, tier_scale, edits=None, tag="gen"):
         res["obligations"].append(("hier: dumped design satisfies WF, WFNet and Sorted", False, json.dumps(recipe)[:1500]))
         return
     from common import canon
-    probs = canon.wf_problems(b.nl)
+    probs = [] if recipe.get("detached") else canon.wf_problems(b.nl)   # a detached definition is 'outside the netlist' on purpose
     if probs:
         res["obligations"].append(("hier: generated netlist is well-formed on the live objects (canon.wf_problems)", False,
                                    "; ".join(probs[:5]) + " " + json.dumps(recipe)[:800]))
@@ -902,10 +957,12 @@ def check_c11(res, sess, recipe, rng, tier_scale, edits=None, tag="gen"):
                 meta.append((obj, rj, f, rec))
     answers = sess.ask(queries)
     count_reach(res, sess, queries)
+    single = {}
     valid_set = elab.all_valid
     for (obj, rj, f, rec), q, a in zip(meta, queries, answers):
         impl, hrefs = impl_query(sdn, f, obj, rec, "I", ids)
         model = sorted(a["v"])
+        single[(id(obj), f, rec)] = (impl, model)
         inp = dict(inp_base, query={"f": f, "root": rj, "rec": rec})
         res["evaluations"] += 1
         res.dist("c11.root=%s" % rj["k"])
@@ -948,6 +1005,67 @@ def check_c11(res, sess, recipe, rng, tier_scale, edits=None, tag="gen"):
                 if n != elab.names[k]:
                     res.spec_failure("HRef.name.not-slash-joined-names-plus-index", inp,
                                      "name %r expected %r for %r" % (n, elab.names[k], k))
+
+    # ---- collections of roots of mixed kinds, handed over as ONE list object ----
+    # P: one reference per occurrence in the raw returned sequence (never through a set), nothing omitted
+    # w.r.t. the single-root answers, and asking again with the very same list gives the same answer
+    from spydrnet.ir.outerpin import OuterPin as _OPm
+    colls = []
+    for _ in range(tier_scale[2] if len(tier_scale) > 2 else 6):
+        colls.append([rng.choice(roots) for _ in range(rng.randint(1, 3))])
+    targeted = []
+    for d_ in b.defs:
+        for c_ in d_.cables:
+            for w_ in c_.wires:
+                for x_ in w_.pins:
+                    if not isinstance(x_, _OPm) and x_.port is not None:
+                        targeted.append((c_, w_, x_))
+    rng.shuffle(targeted)
+    by_item = {}
+    for hh in href_roots:
+        by_item.setdefault(id(hh.item), []).append(hh)
+    for c_, w_, x_ in targeted[:4]:
+        colls.append(rng.choice([[c_, x_.port], [w_, x_], [x_.port, c_], [x_, w_, c_]]))
+        hw_, hp_ = by_item.get(id(w_)), by_item.get(id(x_))
+        if hw_ and hp_:
+            colls.append([rng.choice(hw_), rng.choice(hp_)])
+    for coll in colls:
+        if any(isinstance(o, sdn.Netlist) for o in coll) and len(coll) > 1:
+            coll = [o for o in coll if not isinstance(o, sdn.Netlist)]
+        rjs = [root_json(o, ids, dpos) for o in coll]
+        for f in ("hinst", "hport", "hpin", "hcable", "hwire"):
+            rec = bool(rng.getrandbits(1))
+            if any((id(o), f, rec) not in single for o in coll):
+                continue      # e.g. get_hcables on pin-like roots (C12's), or a root that was sampled away
+            if any(isinstance(single[(id(o), f, rec)][0], dict) for o in coll):
+                continue
+            inp = dict(inp_base, query={"f": f, "roots": rjs, "rec": rec})
+            res["evaluations"] += 1
+            res.dist("c11.collection-of-%d-roots" % len(coll))
+            res.dist("theorem_fragment:no-theorem/collection-of-roots:out:no-theorem")
+            lst = list(coll)
+            r1, _h1 = impl_query(sdn, f, lst, rec, "I", ids)
+            same_list = len(lst) == len(coll) and all(x is y for x, y in zip(lst, coll))
+            r2, _h2 = impl_query(sdn, f, lst, rec, "I", ids)
+            want_impl = sorted(set(tuple(x) for o in coll for x in single[(id(o), f, rec)][0]))
+            want_model = sorted(set(tuple(x) for o in coll for x in single[(id(o), f, rec)][1]))
+            if isinstance(r1, dict) or isinstance(r2, dict):
+                res.spec_failure("get_%ss.collection.raises" % f, inp, repr((r1, r2))[:200])
+                continue
+            t1 = [tuple(x) for x in r1]
+            if len(set(t1)) != len(t1) or len(set(map(id, _h1))) != len(_h1):
+                res.spec_failure("get_%ss.collection.duplicate-reference" % f, inp, "one occurrence, two references in the result")
+            if sorted(set(t1)) != want_impl:
+                miss = sorted(set(want_impl) - set(t1))
+                extra = sorted(set(t1) - set(want_impl))
+                res.spec_failure("get_%ss.collection.%s" % (f, "omission" if miss and not extra else ("extra" if extra and not miss else "differs")),
+                                 inp, "vs the single-root answers: missing %r extra %r" % (miss[:3], extra[:3]))
+            if r2 != r1:
+                res.spec_failure("get_%ss.collection.asked-again-with-the-same-list.differs" % f, inp,
+                                 "first %d references, second %d; caller's list %s" % (len(r1), len(r2), "unchanged" if same_list else "was modified"))
+            if sorted(set(t1)) != want_model:
+                res.corr_mismatch("Spydr.Hier.%s (union over the roots) vs spydrnet.get_%ss(collection)" % (f, f), inp, r1,
+                                  [list(x) for x in want_model])
 
     # ---- names / validity / uniqueness / canonicity of every reference ----
     allh = {}
@@ -1247,6 +1365,8 @@ def gen_pin_edit(rng, b):
         # a structural edit that leaves pins behind on wires: remove a child / a port
         di = rng.randrange(len(r["defs"]))
         D = r["defs"][di]
+        if rng.random() < 0.3 and di != r["top"]:
+            return ["rm_def", di]      # instantiated definition leaves its library; the net still runs through it
         if D["children"] and (rng.random() < 0.6 or not D["ports"]):
             return ["rm_child", di, rng.randrange(len(D["children"]))]
         if D["ports"]:
@@ -1283,6 +1403,10 @@ def apply_pin_edit(b, op):
         if op[0] == "rm_port":
             x = b.h_ports[op[1]][op[2]]
             x.definition.remove_port(x)
+            return "ok"
+        if op[0] == "rm_def":
+            dd = b.defs[op[1]]
+            dd.library.remove_definition(dd)
             return "ok"
         pin = pin_obj(b, op[1], op[2])
         if op[0] in ("disc", "move") and pin.wire is not None:
@@ -1350,6 +1474,31 @@ def _c12_pass(res, sess, b, ids, recipe, rng, tier_scale, tag, only, done):
         res.case(stable_hash([recipe, done]), multi >= 1)
         res.dist("c12.pass-after-%d-pin-edits" % len(done))
     from spydrnet.util.hierarchical_reference import HRef as _H
+    # streaming consumption (no reference kept by the consumer): must give the same pins as the attached ones
+    if not nets.dangling:
+        gc.collect()
+        fan = sorted(nets.pins_of, key=lambda kk: -len(nets.pins_of[kk]))[:5]
+        for kw in fan:
+            if len(nets.pins_of[kw]) < 3:
+                continue
+            hw = _H.from_sequence([ids.keep[i] for i in reversed(kw)])
+            got = []
+            try:
+                for hh in sdn.get_hpins(hw):
+                    got.append(tuple(path_of(hh, ids)))
+                hh = None
+                cnt = sum(1 for _ in sdn.get_hpins(hw))
+            except Exception as e:  # noqa
+                got, cnt = [("exc", exc_family(e))], -1
+            res["evaluations"] += 1
+            res.dist("c12.streaming.fan-out>=%d" % (12 if len(nets.pins_of[kw]) >= 12 else 3))
+            res.dist("theorem_fragment:hpins_of_hwire_spec:" + ("in" if st["wf"] else "out:WF"))
+            if sorted(got) != sorted(nets.pins_of[kw]) or cnt != len(nets.pins_of[kw]):
+                inp = {"recipe": recipe, "query": {"f": "hpin", "root": {"k": "href", "h": list(kw)}, "consumption": "streaming"}}
+                if done:
+                    inp["pin_edits"] = [list(x) for x in done]
+                res.spec_failure("get_hpins.hwire.streaming-consumption.not-the-attached-pins", inp,
+                                 "attached %d, streamed %d distinct %d, counted %d" % (len(nets.pins_of[kw]), len(got), len(set(got)), cnt))
 
     def _all(kind):
         # start references are built from the independent enumeration (not from the code under test)
@@ -1511,6 +1660,30 @@ def _c12_pass(res, sess, b, ids, recipe, rng, tier_scale, tag, only, done):
                     known_sig = SIG_ALL_CABLE if (has_outer and not sm <= si) else SIG_NARROW
             res.corr_mismatch("Spydr.Hier.%s(sel=%s) vs spydrnet.get_%ss" % (f, SELS[sel], f), inp, impl, model,
                               signature=known_sig)
+    # filter=: the callback only selects among the answer, it never changes what is reached
+    fwork = [w_ for w_ in work if w_[2]["k"] == "href"]
+    rng.shuffle(fwork)
+    for kind, h, rj, occ in fwork[: (tier_scale[2] if len(tier_scale) > 2 else 10)]:
+        salt = rng.randrange(1000)
+        mod = rng.choice([2, 3])
+
+        def pred(x, salt=salt, mod=mod):
+            return (sum(path_of(x, ids)) * 31 + salt) % mod != 0
+        for f in ("hwire", "hcable"):
+            for sel in ("A", "I", "O", "B"):
+                plain, plain_h = impl_query(sdn, f, h, False, sel, ids)
+                filt, _ = impl_query(sdn, f, h, False, sel, ids, flt=pred)
+                res["evaluations"] += 1
+                res.dist("c12.filter.%s.%s" % (f, SELS[sel]))
+                res.dist("theorem_fragment:no-theorem/filter-argument:out:no-theorem")
+                if isinstance(plain, dict) or isinstance(filt, dict):
+                    continue
+                want = sorted(path_of(x, ids) for x in plain_h if pred(x))
+                if filt != want:
+                    inp = dict(inp_base, query={"f": f, "root": rj, "sel": sel, "start": kind, "filter": [salt, mod]})
+                    res.spec_failure("get_%ss.%s.filter.not-the-filtered-unfiltered-answer" % (f, SELS[sel]), inp,
+                                     "missing %r extra %r" % (sorted(set(map(tuple, want)) - set(map(tuple, filt)))[:3],
+                                                              sorted(set(map(tuple, filt)) - set(map(tuple, want)))[:3]))
     # trace_same_answer, observed directly: members of one net give the same ALL answer
     by_cls = {}
     for (kind, h, rj, occ, f, sel), a in zip(meta, answers):
@@ -1582,7 +1755,13 @@ def recipe_reductions(r):
                         c["ref"] -= 1
             if r2["top"] > di:
                 r2["top"] -= 1
+            if r2.get("detached"):
+                r2["detached"] = [x - 1 if x > di else x for x in r2["detached"] if x != di]
             yield r2
+    if r.get("detached"):
+        yield dict(r, detached=[])
+    if r.get("top_mode", "setter") != "setter":
+        yield dict(r, top_mode="setter")
     if r.get("orphans"):
         yield dict(r, orphans=0)
     if r.get("nlibs", 1) > 1:
@@ -1612,7 +1791,7 @@ def shrink(recipe, fails, budget_s=20.0):
 # shard workers
 # --------------------------------------------------------------------------------------------
 def _run_one(pid, res, sess, item, rng, tier):
-    scale = (40, 30) if tier == "quick" else (120, 80)
+    scale = (40, 30, 6) if tier == "quick" else (120, 80, 16)
     if pid == "C11":
         check_c11(res, sess, item["recipe"], rng, scale, edits=item.get("edits"), tag=item.get("tag", "gen"))
     else:
